@@ -240,7 +240,14 @@ def taggers(tier, npos):
            "stored/subst": by([S, U]), "subst/stored": by([U, S]),
            "subst/none/stored": by([U, None, S]),
            "user-tags": user, "named": named,
-           "named+stored": lambda k, x: named(k, x).tagged(S)}
+           "named+stored": lambda k, x: named(k, x).tagged(S),
+           # one prefix for everything that is tagged -- inputs included: the
+           # generated names must still be pairwise different
+           "same-prefix": const(PrefixNamed("w")),
+           "same-prefix+stored": lambda k, x: x.tagged(
+               PrefixNamed("w")).tagged(S),
+           "same-prefix+subst": lambda k, x: x.tagged(
+               PrefixNamed("w")).tagged(U)}
     if tier == "thorough":
         for combo in itertools.product([None, S, U, I], repeat=min(npos, 4)):
             out["combo:" + "".join("-" if t is None else type(t).__name__[4]
@@ -371,6 +378,17 @@ class KernelMeaning(Contract):
         h.oblige("kernel.wellformed.argument-names-unique",
                  z3.BoolVal(len(set(argnames)) == len(argnames)), props=P,
                  info=argnames)
+        # arguments, temporaries, inames and substitution rules live in one
+        # name space of the kernel: a name used for two of them denotes two
+        # things (an input read where a temporary was meant, ...)
+        groups = dict(argument=set(argnames),
+                      temporary=set(knl.temporary_variables),
+                      iname=set(decl), rule=set(knl.substitutions))
+        clash = sorted(
+            (nm, a_, b_) for a_ in groups for b_ in groups if a_ < b_
+            for nm in groups[a_] & groups[b_])
+        h.oblige("kernel.wellformed.one-name-one-thing", z3.BoolVal(not clash),
+                 props=(*P, "C15"), info=clash)
         # -- outputs: names, shapes, dtypes
         outs = {a.name for a in knl.args if getattr(a, "is_output", False)}
         h.oblige("kernel.outputs.names", z3.BoolVal(outs == set(ref)),
@@ -651,5 +669,55 @@ def _install_random():
 
 
 _install_random()
+
+# }}}
+
+
+# {{{ the one tag that is a promise: AssumeNonNegative
+
+def _install_assume_nonnegative():
+    """C07 for ``AssumeNonNegative``: with the promise kept (premise: tagged
+    index arrays hold values in [0, n)), the lowered index expression denotes
+    NumPy's indexing -- i.e. what the untagged program denotes -- also when
+    *other* index arrays of the same expression are untagged and negative.
+    The instances are those of the C02 advanced-index contracts that carry
+    the tag."""
+    from contracts import c02_lowering as c02
+
+    def variant(base, vname, contiguous):
+        class V(base):
+            name = vname
+            properties = ("C07",)
+            props_for_all_clauses = ("C07",)
+
+            def instances(self, tier):
+                out, per = [], {}
+                for i in c02.adv_instances("thorough", contiguous):
+                    if not any(k == "arrnn" for k in i["kinds"]):
+                        continue
+                    if tier != "thorough":
+                        # two or three index entries, fully symbolic slices,
+                        # three broadcast patterns per combination
+                        key = tuple(i["kinds"])
+                        if len(key) > 2 + (not contiguous) or "s000" in key \
+                                or "int" in key or per.get(key, 0) >= 3:
+                            continue
+                        per[key] = per.get(key, 0) + 1
+                    elif len(i["kinds"]) > 3:
+                        continue
+                    out.append(dict(i, label=i["label"] + ";promise-kept"))
+                return out
+
+            def canaries(self, tier):
+                return []
+        V.__name__ = V.__qualname__ = "AssumeNonNegative" + base.__name__
+        return contract(V)
+    variant(c02.LowerContiguousAdvancedIndex,
+            "tags.assume-nonnegative.contiguous", True)
+    variant(c02.LowerNonContiguousAdvancedIndex,
+            "tags.assume-nonnegative.non-contiguous", False)
+
+
+_install_assume_nonnegative()
 
 # }}}
